@@ -629,3 +629,144 @@ def out_of_domain(rng):
     add('lastline', 'pragma solidity 0.8.10; contract A { function f(uint a) public returns (uint) { return a + 1; } }')
     add('multibyte', 'pragma solidity 0.8.10;\n// é comment ü\ncontract A { string s = unicode"héllo";\n  function f(uint a) public returns (uint) { return a + 1; } }\n')
     return P
+
+
+# ----------------------------------------------------------------------------- special shapes
+def special_programs():
+    """hand-written programs for shapes that the other streams reach rarely: non-ASCII identifiers, multi-part string
+    literals around the 32-byte boundary, attribute orders, fallback/receive bodies, call options / parenthesised callees,
+    state variables written from another contract, abstract contracts, several contracts with the same member names"""
+    P = []
+
+    def add(tag, src):
+        P.append({'gen': 'special:' + tag, 'src': src})
+    add('unicode-ident', PRELUDE + 'contract A { uint zähler; function ändern() internal { zähler = zähler + 1; } function _öffentlich() public { } }')
+    add('unicode-ident-expr', PRELUDE + 'contract A { function f(address à, uint montant) public { ñandú.transfer(à, montant); '
+        'if (größe >= montant) { größe++; } ü = ü * 2; } }')
+    add('unicode-first-byte', 'pragma solidity 0.8.10;\ncontract Ä {\n  uint public _é;\n  function ö() public {\n    é.approve(address(0), 1);\n  }\n}\n')
+    add('multipart-short', 'pragma solidity 0.8.3;\ncontract A { function f(uint z) public { require(z > 0, "insufficient " "balance"); '
+        'require(z > 1, "0123456789012345" "0123456789012345678"); require(z > 2, "0123456789012345678901234567890123" "x"); } }')
+    add('multipart-long', 'pragma solidity 0.8.10;\ncontract A { function f(uint z) public { require(z > 0, "insufficient " "balance"); '
+        'require(z > 1, "0123456789012345" "0123456789012345678"); require(z > 2, "0123456789012345678901234567890123" "x"); } }')
+    add('attr-orders', PRELUDE + 'contract A {\n  function a() payable external {}\n  function b() external payable {}\n'
+        '  function c() payable public virtual {}\n  function d() virtual external {}\n  function e() view external returns (uint) { return 1; }\n'
+        '  receive() payable external {}\n  fallback() external payable {}\n  function g() payable internal {}\n  function h() external pure virtual {}\n}')
+    add('var-attr-orders', PRELUDE + 'contract A {\n  uint constant public K1 = 1;\n  uint public constant K2 = 2;\n  uint private constant _K3 = 3;\n'
+        '  uint constant private K4 = 4;\n  uint immutable public _i1;\n  uint public immutable i2;\n  uint internal immutable i3;\n  constructor() { _i1 = 1; i2 = 2; i3 = 3; }\n}')
+    add('selfdestruct-special-fns', PRELUDE + 'contract A {\n  fallback() external { selfdestruct(payable(address(0))); }\n'
+        '  receive() external payable { selfdestruct(payable(msg.sender)); }\n  function k() external { suicide(payable(address(0))); }\n'
+        '  constructor() { selfdestruct(payable(address(0))); }\n  modifier only() { selfdestruct(payable(address(0))); _; }\n}')
+    add('erc20-callee-forms', PRELUDE + 'contract A { function f(IERC20 token, address to) public {\n  token.transfer{gas: 50000}(to, 1);\n'
+        '  (token.approve)(to, 1);\n  bytes4 s = token.transferFrom.selector;\n  abi.encodeWithSelector(token.transfer.selector, to, 1);\n'
+        '  token.transfer;\n  token.safeTransfer(to, 1);\n  transfer(to, 1);\n} }')
+    add('cross-contract-write', PRELUDE + 'contract Vault {\n  uint vaultRate;\n  uint keptRate;\n  address owner;\n  uint neverSet;\n'
+        '  constructor() { vaultRate = 1; keptRate = 2; owner = msg.sender; }\n}\ncontract Boosted is Vault {\n  function boost() public { vaultRate = 3; }\n'
+        '  function bump() public { neverSet += 1; }\n}')
+    add('cross-contract-ctor-write', PRELUDE + 'contract Base {\n  uint a1;\n  uint b1;\n  constructor() { a1 = 1; }\n}\n'
+        'contract Derived is Base {\n  constructor() { b1 = 2; }\n  function w() external { a1++; }\n}')
+    add('abstract-vars', PRELUDE + 'abstract contract Abs {\n  uint never;\n  uint setOnce;\n  uint counter;\n  constructor() { setOnce = 1; }\n'
+        '  function inc() public { counter = counter + 1; }\n}\ncontract Impl is Abs {\n  uint other;\n  function z() public { counter = 0; other = 1; }\n}')
+    add('library-interface-vars', PRELUDE + 'library L { uint constant LK = 1; function f() internal pure returns (uint) { return LK; } }\n'
+        'interface I { function g() external; }\ncontract C { uint cv; function h() public { cv = L.f(); } }')
+    add('same-member-names', PRELUDE + 'contract G1 { address o1; modifier onlyOwner() { require(msg.sender == o1); _; } '
+        'function kill() external onlyOwner { selfdestruct(payable(o1)); } function set(uint[] memory m) public { m[0] = 1; } }\n'
+        'contract G2 { function kill() external { selfdestruct(payable(address(0))); } function set(uint[] memory m) public returns (uint) { return m.length; } }\n'
+        'contract G3 { address o3; function kill() external { require(msg.sender == o3, "no"); selfdestruct(payable(o3)); } }')
+    add('small-then-packable', PRELUDE + 'contract Pausable { bool paused; }\ncontract Pool { uint128 a; uint256 b; uint128 c; }\n'
+        'contract Guarded { uint256 g1; bool g2; }\ncontract Registry { uint256 r1; address r2; bool r3; }')
+    add('address-payable-sizes', PRELUDE + 'contract A { address payable a; uint256 b; uint96 c; }\nstruct S { address payable a; uint256 b; uint96 c; }\n'
+        'contract B { address a; uint256 b; uint96 c; }')
+    add('late-pragma', 'contract A { function f(uint z) public { require(z > 0, "msg"); } }\npragma solidity 0.8.13;\n'
+        'contract B { function g(uint z) public { require(z > 0, "msg"); } }')
+    add('late-pragma-old', 'library A { function f(uint z) internal { require(z > 0, "this message is definitely longer than thirty-two bytes"); } }\n'
+        'pragma solidity 0.7.6;\ncontract B { function g(uint z) public { require(z > 0, "short"); } }')
+    add('gt-pragma', 'pragma solidity >0.8.3;\ncontract A { using SafeMath for uint; function f(uint z) public { require(z > 0, "x"); z = z.add(2); } }')
+    add('gt-pragma-space', 'pragma solidity > 0.7.6;\ncontract A { using SafeMath for uint; function f(uint z) public { require(z > 0, "x"); z = z.add(2); } }')
+    add('major-1', 'pragma solidity 1.7.3;\ncontract A { using SafeMath for uint; function f(uint z) public { require(z > 0, "x"); z = z.add(2); } }')
+    add('multiline-require', PRELUDE + 'contract A { function f(uint a, uint b, uint c) public {\n  require(\n    a == b && b == c,\n    "msg"\n  );\n'
+        '  require(a > 0 &&\n    b > 0);\n} }')
+    add('nested-arith-lines', PRELUDE + 'contract A { function f(uint a, uint b, uint c) public returns (uint) {\n  return a +\n    b * c;\n}\n'
+        'function g(uint a, uint b, uint c) public returns (uint) {\n  return (a - b) /\n    (c +\n     a);\n} }')
+    add('unchecked-nested', PRELUDE + 'contract A { function f(uint i, uint j, bool c) public {\n  unchecked { if (c) { ++i; } }\n'
+        '  unchecked { for (uint k = 0; k < 3; ++k) { ++j; } }\n  unchecked { uint q = ++i; --j; }\n  ++i; i++;\n} }')
+    add('zero-literal-muldiv', PRELUDE + 'contract A { function f(uint amount) public returns (uint) { return amount * 0 + amount / 0 + 0 * amount + 2 * 0; } }')
+    add('call-options-args', PRELUDE + 'contract A { function f(address to, bytes32 s) public { (bool ok, ) = to.call{value: msg.value, gas: 5000}(""); '
+        'C c = new C{salt: s}(); this.g{value: 1}(2); } function g(uint) public payable {} }')
+    add('free-functions', PRELUDE + 'function min(uint a, uint b) pure returns (uint) { return a < b ? a : b; }\n'
+        'function twice(uint a) pure returns (uint) { return min(a, a) * 2; }\ncontract C { function f() public {} }\nfunction max(uint a, uint b) pure returns (uint) { return a >= b ? a : b; }')
+    return P
+
+
+WRITE_FORMS = ['@ = 1', '@ += 1', '@ -= 1', '@ *= 2', '@ /= 2', '@ %= 2', '@ |= 1', '@ &= 1', '@ ^= 1', '@ <<= 1', '@ >>= 1',
+               '@++', '@--', '++@', '--@']
+
+
+def c08_scenarios(rng, n):
+    """files with 2-3 contracts in which state variables of several types are (or are not) assigned in a constructor and
+    written, by one of the 15 write forms, from a chosen place: same contract / derived contract / other contract;
+    function / constructor / modifier / fallback / free function; directly or nested in a larger expression"""
+    out = []
+    types = ['uint', 'uint256', 'uint8', 'address', 'bool', 'bytes32', 'int', 'string', 'bytes', 'uint[]', 'mapping(uint => uint)', 'IERC20']
+    for k in range(n):
+        nv = rng.randint(1, 4)
+        decls = []
+        ctor = []
+        places = {'same_fn': [], 'same_ctor': [], 'other_fn': [], 'other_ctor': [], 'modifier': [], 'fallback': [], 'free': [], 'third_fn': []}
+        for i in range(nv):
+            name = '%s%d' % (rng.choice(['v', 'rate', '_p', 'own', 'tot']), i)
+            ty = rng.choice(types)
+            attrs = rng.choice(['', '', 'public', 'private', 'internal', 'immutable', 'constant'])
+            simple = ty in ('uint', 'uint256', 'uint8', 'int')
+            if attrs == 'constant':
+                if not simple:
+                    attrs = ''
+                else:
+                    decls.append('%s constant %s = 1;' % (ty, name))
+                    continue
+            if attrs == 'immutable' and ty in ('string', 'bytes', 'uint[]', 'mapping(uint => uint)'):
+                attrs = ''
+            init = ' = 5' if simple and rng.random() < 0.15 else ''
+            decls.append('%s %s %s%s;' % (ty, attrs, name, init))
+            rhs = {'uint': '1', 'uint256': 'q', 'uint8': '2', 'int': '3', 'address': rng.choice(['msg.sender', 'address(0)']), 'bool': 'true',
+                   'bytes32': 'bytes32(0)', 'string': rng.choice(['"s"', 'nm']), 'bytes': rng.choice(['bytes("x")', 'abi.encode(q)']),
+                   'uint[]': 'new uint[](1)', 'IERC20': 'IERC20(address(0))'}.get(ty)
+            if rhs and rng.random() < 0.6:
+                ctor.append('%s = %s;' % (name, rhs))
+            if simple and rng.random() < 0.7:
+                form = rng.choice(WRITE_FORMS).replace('@', name)
+                wrap = rng.choice(['%s;', '%s;', 'g(%s);', 'uint t%d = (%%s);' % i, 'if ((%s) > 0) { }', 'try this.ext() { } catch { %s; }', 'y = 2 ** (%s);'])
+                places[rng.choice(sorted(places))].append(wrap % form)
+            elif ty in ('address', 'bool', 'bytes32', 'string', 'bytes') and rng.random() < 0.5:
+                places[rng.choice(sorted(places))].append('%s = %s;' % (name, rhs or name))
+            elif ty in ('uint[]', 'mapping(uint => uint)') and rng.random() < 0.5:
+                places[rng.choice(sorted(places))].append('%s[0] = 1;' % name)
+        kind1 = rng.choice(['contract', 'contract', 'abstract contract'])
+        c1 = ['%s Decl {' % kind1, '  uint y;'] + ['  ' + d for d in decls]
+        if ctor or places['same_ctor'] or rng.random() < 0.5:
+            c1.append('  constructor(uint q, string memory nm) { %s }' % ' '.join(ctor + places['same_ctor']))
+        if places['modifier']:
+            c1.append('  modifier mm() { %s _; }' % ' '.join(places['modifier']))
+        c1.append('  function g(uint a) internal returns (uint) { return a; }')
+        c1.append('  function ext() external { }')
+        if places['same_fn']:
+            c1.append('  function same() public { %s }' % ' '.join(places['same_fn']))
+        if places['fallback']:
+            c1.append('  fallback() external { %s }' % ' '.join(places['fallback']))
+        c1.append('}')
+        rel = rng.choice([' is Decl', ' is Decl', ''])
+        c2 = ['contract Other%s {' % rel]
+        if places['other_ctor']:
+            c2.append('  constructor() %s{ %s }' % ('Decl(1, "n") ' if rel and rng.random() < 0.5 else '', ' '.join(places['other_ctor'])))
+        if places['other_fn']:
+            c2.append('  function other() public { %s }' % ' '.join(places['other_fn']))
+        c2.append('  function g2(uint a) internal returns (uint) { return a; }')
+        c2.append('}')
+        items = ['\n'.join(c1), '\n'.join(c2)]
+        if places['third_fn']:
+            items.append('library Third { function third() internal { %s } }' % ' '.join(places['third_fn']))
+        if places['free']:
+            items.append('function freeWriter() { %s }' % ' '.join(places['free']))
+        if rng.random() < 0.4:
+            rng.shuffle(items)
+        out.append({'gen': 'c08scen:%d' % k, 'src': PRELUDE + '\n'.join(items) + '\n'})
+    return out
